@@ -22,8 +22,9 @@ Ltac atom :=
   | |- context [Z.eqb ?a ?b] => no_if a; no_if b; let E := fresh "E" in destruct (Z.eqb a b) eqn:E
   | |- context [Z.ltb ?a ?b] => no_if a; no_if b; let E := fresh "E" in destruct (Z.ltb a b) eqn:E
   end.
-Ltac sym := repeat (progress (cbn -[text_eqb show_Z Z.add Z.sub Z.eqb Z.ltb app find_sub count_nl firstn Z.of_nat Z.to_nat helper_call])).
-Ltac fin := try discriminate; try congruence; cbn [app]; rewrite ?app_nil_r, <- ?app_assoc; cbn [app]; try reflexivity; try congruence.
+Ltac sym := repeat (progress (cbn -[text_eqb show_Z Z.add Z.sub Z.eqb Z.ltb find_sub count_nl firstn Z.of_nat Z.to_nat helper_call])).
+Ltac fin := try discriminate; try congruence; cbn [app]; rewrite ?app_nil_r, <- ?app_assoc; cbn [app]; try reflexivity; try congruence;
+  try (repeat f_equal; lia).
 
 Theorem code_report_is_model : forall (o : obj) (descr section : text) (off thresh : Z),
   effects_of (report_ir code_report o descr section off thresh) = Some [FxMsg (report_call o descr section off thresh)].
@@ -86,8 +87,32 @@ Proof.
   destruct (n_line a =? 0) eqn:E; cbn [negb]; [exact IH|]. split; [reflexivity|exact E].
 Qed.
 
-Ltac sym_nw := repeat (progress (cbn -[text_eqb show_Z Z.add Z.sub Z.eqb Z.ltb app find_sub count_nl firstn Z.of_nat Z.to_nat
+Ltac sym_nw := repeat (progress (cbn -[text_eqb show_Z Z.add Z.sub Z.eqb Z.ltb find_sub count_nl firstn Z.of_nat Z.to_nat
                                       helper_call while_loop for_loop])).
+
+Ltac rew_call :=
+  match goal with
+  | Hx : forall fuel : nat, _ -> helper_call _ _ _ fuel _ = _ |- context [helper_call _ _ _ ?f _] =>
+    rewrite (Hx f) by (cbn [length] in *; lia)
+  | Hx : forall (r : list dnode) (fuel : nat), _ -> helper_call _ _ _ fuel _ = _ |- context [helper_call _ _ _ ?f _] =>
+    rewrite Hx by (cbn [length] in *; lia)
+  end.
+
+(* the source walks up the ancestors with a recursive helper; mk r = the arguments of a call whose ancestor is r *)
+Ltac get_lineno_rec node mk :=
+  match goal with
+  | |- context [helper_call ?W ?lf ?h] =>
+    let T := eval cbv beta in (forall (r : list dnode) (fuel : nat), (length r < fuel)%nat ->
+                                 helper_call W lf h fuel (mk r) = Some (VInt (walk node r))) in
+    assert (H : T);
+    [ let r := fresh "r" in
+      intros r; induction r as [|? ? ?];
+      (let fuel := fresh "fuel" in let Hf := fresh "Hf" in intros fuel Hf; destruct fuel; [cbn in Hf; lia|]);
+      [ rewrite walk_nil; cbn [helper_call]; run; fin2
+      | cbn [length] in *; rewrite walk_cons; cbn [helper_call];
+        repeat (first [progress sym | rew_call | atom2]); fin2 ]
+    | repeat (first [progress sym | rew_call | atom2]); fin2 ]
+  end.
 
 Theorem code_get_lineno_is_model : forall (node : dnode) (ancs : list dnode),
   returned (get_lineno_ir code_get_lineno node ancs) = Some (VInt (get_lineno_chain node ancs)).
@@ -95,18 +120,11 @@ Proof.
   intros node ancs. rewrite get_lineno_chain_walk.
   unfold get_lineno_ir, run_fn, code_get_lineno. cbn [f_body f_helper].
   first
-  [ (* the source written with a recursive nested helper *)
-    solve [
-  match goal with
-  | |- context [helper_call ?W ?lf ?h] =>
-    assert (H : forall (r : list dnode) (fuel : nat), (length r < fuel)%nat ->
-              helper_call W lf h fuel (match r with [] => VNone | _ :: _ => VNode r end) = Some (VInt (walk node r)));
-    [ induction r as [|a r IH]; intros fuel Hf; (destruct fuel as [|fuel]; [cbn in Hf; lia|]);
-      [ rewrite walk_nil; run; fin2
-      | cbn [length] in Hf; rewrite walk_cons; cbn [helper_call];
-        repeat (first [progress sym | rewrite (IH fuel) by lia | atom2]); fin2 ]
-    | repeat (first [progress sym | rewrite (H ancs) by lia | atom2]); fin2 ]
-  end ]
+  [ (* a nested helper with one parameter: the ancestor *)
+    solve [ get_lineno_rec node (fun r : list dnode => [match r with [] => VNone | _ :: _ => VNode r end]) ]
+  | (* a helper that takes the node and the ancestor *)
+    solve [ get_lineno_rec node (fun r : list dnode => [VNode (node :: ancs); match r with [] => VNone | _ :: _ => VNode r end]) ]
+  | solve [ get_lineno_rec node (fun r : list dnode => [match r with [] => VNone | _ :: _ => VNode r end; VNode (node :: ancs)]) ]
   | (* the source written with a `while` loop that climbs to the first ancestor with a line: x is the loop variable *)
     solve [
   let body := eval unfold code_get_lineno_body in code_get_lineno_body in
